@@ -240,11 +240,23 @@ func TestVerifC19(t *testing.T) {
 	modes := []pdf.ReaderErrorHandling{pdf.ErrorHandlingRecover, pdf.ErrorHandlingReport, pdf.ErrorHandlingStop}
 	modeNames := []string{"Recover", "Report", "Stop"}
 
+	fax := false // set by the phase: long CCITTFax streams
 	readFaults := func(c *kit.Case, updated bool) {
 		cfg := gen.RandomConfig(c.Rng, c.Index%144)
 		cfg.MaxOps = 2 + c.Rng.Intn(6)
 		cfg.WithMetadata = c.Rng.Bool()
 		cfg.PlaintextMetadata = c.Rng.Bool()
+		if fax {
+			// long CCITTFax Group 3 2-D streams: a decoder that looks ahead over the
+			// raw data in 4096-byte pieces; faults on every piece
+			cfg.FaxStreams = true
+			cfg.NoObjStm = true
+			cfg.MaxOps = 1 + c.Rng.Intn(3)
+			cfg.UserPW, cfg.OwnerPW = "", ""
+			if cfg.Version < pdf.V1_1 {
+				cfg.ID = nil
+			}
+		}
 		if updated {
 			// a file with an incremental update: the last two startxref keywords
 			// are close to each other (classic cross-reference tables, no encryption)
@@ -351,6 +363,9 @@ func TestVerifC19(t *testing.T) {
 	}
 	r.Phase("read-faults", r.N(96, 1200), func(c *kit.Case) { readFaults(c, false) })
 	r.Phase("read-faults-updated-file", r.N(48, 600), func(c *kit.Case) { readFaults(c, true) })
+	fax = true
+	r.Phase("read-faults-fax-streams", r.N(48, 600), func(c *kit.Case) { readFaults(c, false) })
+	fax = false
 
 	r.Phase("write-faults", r.N(600, 8000), func(c *kit.Case) {
 		cfg := gen.RandomConfig(c.Rng, c.Index%144)
